@@ -180,13 +180,26 @@ Proof.
   - right. rewrite lookup_set_neq by exact NE. exact H.
 Qed.
 
+Lemma assign2_any A v os v2 os2 w o :
+  In o (lookup A w) ->
+  in_kills w o (snd (assign2 A v os v2 os2)) \/ In o (lookup (fst (assign2 A v os v2 os2)) w).
+Proof.
+  intros H. unfold assign2. cbn [fst snd].
+  destruct (assign_any A v os w o H) as [HK|HN].
+  - left. apply in_kills_app_l. exact HK.
+  - destruct (assign_any _ v2 os2 w o HN) as [HK|HN2].
+    + left. apply in_kills_app_r. exact HK.
+    + right. exact HN2.
+Qed.
+
 Lemma A_le_any summ it p : forall A v o, In o (lookup A v) -> inany (ai summ it p A) v o.
 Proof.
   induction p as [|op|p IHp q IHq|p IHp q IHq|p IHp|p IHp]; intros A v o H; cbn [ai].
   - right. exact H.
   - unfold inany. cbn [kills nrm].
-    destruct op as [x|x ws|x ws|c w k|r f args]; cbn [ai_op fst snd]; try (apply assign_any; exact H).
-    right. exact H.
+    destruct op as [x|x ws|x ws|c w k|r r2 f args]; cbn [ai_op fst snd]; try (apply assign_any; exact H).
+    + right. exact H.
+    + apply assign2_any. exact H.
   - unfold inany. cbn [kills nrm]. destruct (IHp A v o H) as [HK|HN].
     + left. apply in_kills_app_l. exact HK.
     + destruct (IHq _ v o HN) as [HK2|HN2]; [left; apply in_kills_app_r; exact HK2 | right; exact HN2].
@@ -224,7 +237,8 @@ Section Sound.
   Definition cons_at (f : fname) : Prop :=
     let r := ai summ it (body (F f)) (init (arity (F f))) in
     ok r = true /\ (forall o, written o (wr r) -> written o (s_wr (summ f))) /\
-    (forall o, inany r 0%N o -> In o (s_ret (summ f))).
+    (forall o, inany r 0%N o -> In o (s_ret (summ f))) /\
+    (forall o, inany r (ret2 (arity (F f))) o -> In o (s_ret2 (summ f))).
   Hypothesis CONS : forall f, cons_at f.
 
   Definition absP (n0 : nat) (oloc : origin -> list loc) (P : var -> origin -> Prop) (s : state) : Prop :=
@@ -273,18 +287,21 @@ Section Sound.
   Proof. intros H1 H2. unfold origins. apply in_flat_map. exists w. auto. Qed.
 
   (* what a call does, given the soundness of the callee's body one call level down *)
-  Lemma call_facts n (IHn : forall p, sound_prog n p) r f args A (s : state) b0 s1 n0 oloc :
+  Lemma call_facts n (IHn : forall p, sound_prog n p) r r2 f args A (s : state) b0 s1 n0 oloc :
     exec n (body (F f)) (callee_state frame s (arity (F f)) args) b0 s1 ->
     In 0 (oloc 0) -> n0 <= nx s -> abstracts n0 oloc A s ->
-    let res := ai summ it (Op (Call r f args)) A in
-    (forall l, In l (st s1 0%N) -> l < n0 -> exists o, In o (lookup (nrm res) r) /\ In l (oloc o)) /\
+    let res := ai summ it (Op (Call r r2 f args)) A in
+    (forall l, In l (st s1 0%N) -> l < n0 ->
+       exists o, In o (dedup (flat_map (tr A args) (s_ret (summ f)))) /\ In l (oloc o)) /\
+    (forall l, In l (st s1 (ret2 (arity (F f)))) -> l < n0 ->
+       exists o, In o (dedup (flat_map (tr A args) (s_ret2 (summ f)))) /\ In l (oloc o)) /\
     nx s <= nx s1 /\
     (forall l, l < n0 -> (forall o, In l (oloc o) -> ~ written o (wr res)) -> hp s1 l = hp s l).
   Proof.
     intros EX H0 Hn HA res.
     set (a := arity (F f)).
     set (oloc' := fun o : origin => match o with 0 => [0] | S i => reach frame s (nth i args []) end).
-    destruct (CONS f) as [COK [CWR CRET]]. fold a in COK, CWR, CRET.
+    destruct (CONS f) as [COK [CWR [CRET CRET2]]]. fold a in COK, CWR, CRET, CRET2.
     assert (HA0 : abstracts (nx s) oloc' (init a) (callee_state frame s a args)).
     { intros v l Hl _. cbn [callee_state st] in Hl.
       destruct (N.to_nat v) as [|i] eqn:EV; [destruct Hl|].
@@ -301,11 +318,13 @@ Section Sound.
       - destruct Hl as [E|[]]. subst l. exists 0. split; [left; reflexivity | exact H0].
       - destruct (reach_in _ _ _ Hl) as [w [Hw Hlw]]. destruct (HA w l Hlw Hlt) as [o [Ho Hlo]].
         exists o. split; [cbn [tr]; eapply origins_in; eassumption | exact Hlo]. }
-    split; [|split].
+    split; [|split; [|split]].
     - intros l Hl Hlt. destruct (PA' 0%N l Hl ltac:(lia)) as [o' [Ho' Hlo']].
       apply CRET in Ho'. destruct (TR o' l Hlo' Hlt) as [o [Ho Hlo]]. exists o. split; [|exact Hlo].
-      subst res. cbn [ai nrm ai_op fst assign]. rewrite lookup_set_eq. apply In_dedup.
-      apply in_flat_map. exists o'. auto.
+      apply In_dedup. apply in_flat_map. exists o'. auto.
+    - intros l Hl Hlt. destruct (PA' (ret2 a) l Hl ltac:(lia)) as [o' [Ho' Hlo']].
+      apply CRET2 in Ho'. destruct (TR o' l Hlo' Hlt) as [o [Ho Hlo]]. exists o. split; [|exact Hlo].
+      apply In_dedup. apply in_flat_map. exists o'. auto.
     - exact PN.
     - intros l Hlt HW. apply PF; [lia|]. intros o' Hlo' HWo'. apply CWR in HWo'.
       destruct HWo' as [c [k HI]]. destruct (TR o' l Hlo' Hlt) as [o [Ho Hlo]].
@@ -351,16 +370,22 @@ Section Sound.
     - (* Call, returns *)
       match goal with HEX : Model.exec _ _ _ _ ?m _ _ ?bb ?ss |- _ =>
         assert (IH' : forall p, sound_prog m p) by (intros p; apply IHn; lia);
-        destruct (call_facts m IH' r f args A s bb ss n0 oloc HEX H0 Hn HA) as [CR [CN CF]] end.
+        destruct (call_facts m IH' r r2 f args A s bb ss n0 oloc HEX H0 Hn HA) as [CR [CR2 [CN CF]]] end.
       split; [|split]; [|cbn; exact CN|exact CF].
-      intros w l Hl Hlt. cbn [after_call st] in Hl. destruct (N.eqb w r) eqn:E.
-      + apply N.eqb_eq in E. subst w. apply CR; assumption.
-      + assert (w <> r) by (intro; subst; rewrite N.eqb_refl in E; discriminate).
-        cbn [ai nrm ai_op fst assign]. rewrite lookup_set_neq by assumption. apply HA; assumption.
+      intros w l Hl Hlt. cbn [after_call st] in Hl.
+      cbn [ai nrm ai_op fst assign2 assign].
+      destruct (N.eqb w r2) eqn:E2.
+      + apply N.eqb_eq in E2. subst w. rewrite lookup_set_eq. apply CR2; assumption.
+      + assert (w <> r2) by (intro; subst; rewrite N.eqb_refl in E2; discriminate).
+        rewrite lookup_set_neq by assumption.
+        destruct (N.eqb w r) eqn:E.
+        * apply N.eqb_eq in E. subst w. rewrite lookup_set_eq. apply CR; assumption.
+        * assert (w <> r) by (intro; subst; rewrite N.eqb_refl in E; discriminate).
+          rewrite lookup_set_neq by assumption. apply HA; assumption.
     - (* Call, raises *)
       match goal with HEX : Model.exec _ _ _ _ ?m _ _ ?bb ?ss |- _ =>
         assert (IH' : forall p, sound_prog m p) by (intros p; apply IHn; lia);
-        destruct (call_facts m IH' r f args A s bb ss n0 oloc HEX H0 Hn HA) as [CR [CN CF]] end.
+        destruct (call_facts m IH' r r2 f args A s bb ss n0 oloc HEX H0 Hn HA) as [CR [CR2 [CN CF]]] end.
       split; [|split]; [|cbn; exact CN|exact CF].
       eapply absP_weaken; [|exact HA]. intros v o. apply A_le_any.
   Qed.
@@ -487,7 +512,7 @@ Section Sound.
       hp s' l = hp s l.
   Proof.
     intros f n s b s' HE EX l Hlt HI HP.
-    destruct (CONS f) as [COK [CWR CRET]].
+    destruct (CONS f) as [COK [CWR [CRET CRET2]]].
     set (a := arity (F f)) in *.
     set (oloc := fun o : origin => match o with 0 => [0] | S i => st s (vparam i) end).
     assert (HA : abstracts (nx s) oloc (init a) s).
@@ -523,11 +548,24 @@ Proof.
   intros H f. unfold consistent in H.
   assert (HD : fn_consistent summL it dfdef dsum = true) by reflexivity.
   pose proof (forallb2_nth _ dfdef dsum HD _ _ H (N.to_nat f)) as HF.
-  unfold fn_consistent, analyse in HF. cbn [fst snd s_wr s_ret] in HF.
-  apply andb_true_iff in HF. destruct HF as [HF H3]. apply andb_true_iff in HF. destruct HF as [H1 H2].
-  unfold cons_at. cbn beta. split; [exact H1|split].
+  unfold fn_consistent, analyse in HF. cbn [fst snd s_wr s_ret s_ret2] in HF.
+  apply andb_true_iff in HF. destruct HF as [HF H4]. apply andb_true_iff in HF. destruct HF as [HF H3].
+  apply andb_true_iff in HF. destruct HF as [H1 H2].
+  unfold cons_at. cbn beta. split; [exact H1|split; [|split]].
   - intros o C. eapply sub_wr_spec; [exact H2|]. apply written_wr_app. left. exact C.
   - intros o C. eapply sub_set_spec; [exact H3|]. apply In_dedup. apply inany_anyS. exact C.
+  - intros o C. eapply sub_set_spec; [exact H4|]. apply In_dedup. apply inany_anyS. exact C.
+Qed.
+
+Lemma ds_clean_param sm i : ds_clean sm = true -> Nat.odd i = true -> param_clean i sm = true.
+Proof.
+  unfold ds_clean, param_clean, writtenb. intros H Hi. apply negb_true_iff in H. apply negb_true_iff.
+  destruct (existsb (fun r => Nat.eqb (snd (fst r)) (S i)) (s_wr sm)) eqn:E; [|reflexivity].
+  apply existsb_exists in E. destruct E as [r [Hr Er]]. apply Nat.eqb_eq in Er.
+  assert (existsb (fun r => negb (Nat.eqb (snd (fst r)) 0) && Nat.even (snd (fst r))) (s_wr sm) = true).
+  { apply existsb_exists. exists r. split; [exact Hr|]. rewrite Er. cbn [Nat.eqb negb andb].
+    rewrite Nat.even_succ. exact Hi. }
+  congruence.
 Qed.
 
 (* ---------------------------------------------------------------- straight-line corollary *)
@@ -539,13 +577,13 @@ Section Straight.
 
   Lemma step_exec o (s : state frame) : exec frame mutate dflt F0 1 (Op o) s true (step_op frame mutate dflt o s).
   Proof.
-    destruct o as [v|v ws|v ws|c w k|r f args]; cbn [step_op].
+    destruct o as [v|v ws|v ws|c w k|r r2 f args]; cbn [step_op].
     - apply E_alias.
     - apply E_move.
     - apply E_copy.
     - destruct (st s w) as [|l tl] eqn:E; [apply E_write_miss|].
       apply E_write_hit. rewrite E. left. reflexivity.
-    - apply (E_call_ret frame mutate dflt F0 0 r f args s true). cbn. apply E_skip.
+    - apply (E_call_ret frame mutate dflt F0 0 r r2 f args s true). cbn. apply E_skip.
   Qed.
 
   Lemma run_exec l : forall (s : state frame),
@@ -563,8 +601,9 @@ Section Straight.
     intros l s HE Hn HC.
     set (summ := fun g : fname => nth (N.to_nat g) (@nil summary) dsum).
     assert (CONS : forall f, cons_at F0 summ 1 f).
-    { intros f. unfold cons_at, F0. cbn. split; [reflexivity|split].
+    { intros f. unfold cons_at, F0. cbn. split; [reflexivity|split; [|split]].
       - intros o [c [k []]].
+      - intros o [[os [[] _]]|[]].
       - intros o [[os [[] _]]|[]]. }
     set (p := seqs (map Op l)).
     set (oloc := fun o : origin => match o with 0 => [0] | S _ => @nil loc end).
